@@ -30,7 +30,7 @@ FUNCTIONS = ["ApplicationHelp.render/_render_help", "CommandHelp.render/_render_
 PART = {}
 BOUNDS = {"quick": "one application (3 top-level commands, one with 2 sub-commands, options on parent and child, 2 arguments); symbolic: hidden/disabled bits of 4 commands, description kind (none/short/long) of 4 elements, "
                    "value mode and default of 2 options, multi-valued argument; terminal widths {40, 64, 120}; pages: application, parent command, sub-command; both help routes",
-          "thorough": "widths 40..200 step 8, all description kinds on all elements"}
+          "thorough": "10 widths in 40..200, 6 parent description/value-mode combinations, 4 hidden/disabled patterns"}
 OUTSIDE = ["command trees other than the skeleton", "descriptions with style tags or several paragraphs", "ANSI decorated pages (plain pages only; decoration is C11)"]
 STUBS = ["terminal width passed through IO.set_terminal_dimensions / the COLUMNS-independent Rectangle of the run's IO factory"]
 ASSUMPTIONS = ["'a terminal at least as wide as the longest label plus a margin': widths >= 40 for labels of <= 22 characters",
@@ -227,11 +227,11 @@ def conditions(tier):
     quick = tier == "quick"
     t = 120 if quick else 1500
     conds = []
-    widths = (40, 64, 120) if quick else tuple(range(40, 201, 8))
-    combos = [(0, 2, 1), (2, 0, 3)] if quick else [(a, p, m) for a in range(3) for p in range(3) for m in range(4)]
+    widths = (40, 64, 120) if quick else (40, 44, 48, 56, 64, 80, 100, 120, 160, 200)
+    combos = [(0, 2, 1), (2, 0, 3)] if quick else [(0, 2, 1), (2, 0, 3), (1, 1, 2), (2, 2, 0), (0, 0, 3), (1, 2, 2)]
     for w in widths:
         for d_alpha, d_par, mode_par in combos:
-            for hide in ([(False, False, False, False), (True, True, True, True)] if quick else [None]):
+            for hide in ([(False, False, False, False), (True, True, True, True)] if quick else [(False, False, False, False), (True, True, True, True), (True, False, False, True), (False, True, True, False)]):
                 conds.append({"name": "pages[w=%d,alpha=%d,par=%d/%d%s]" % (w, d_alpha, d_par, mode_par, "" if hide is None else ",hide=" + "".join("1" if x else "0" for x in hide)), "fn": pages, "timeout": t,
                               "part": {"width": w, "d_alpha": d_alpha, "d_par": d_par, "mode_par": mode_par, "hide": hide},
                               "bounds": "terminal width %d; parent description kind %d, parent option description kind %d / value mode %d; %s; symbolic: option/argument description kinds, child option value mode, defaults, multi-valued argument, name preference" % (
